@@ -33,6 +33,7 @@ func noteSpellings() []string {
 
 func init() {
 	register("c03", Def{
+		Debug:      true,
 		Rule:       "28 supported keys x 21 root spellings x (no bass + 21 bass spellings): one `crd text conv syllable --key K` run per single chord; all 12,936 are distinct inputs; plus 588 seeded repeats with the key delivered by {key=K} on the chord or on a preceding rest",
 		Exhaustive: true,
 		Gen: func(c *Ctx) []Case {
